@@ -101,6 +101,11 @@ func init() {
 			b := e.freshResult(st, "asn1", resTypeAt(resT, 0))
 			return tupleOf(resT, b, er)
 		}
+		if asn1Total(sv.T) {
+			// structs of byte strings, integers and booleans (no strings, times, object identifiers, pointers): no error path
+			used(e, "encoding/asn1.Marshal of a struct whose fields are (slices of) byte slices, integers and booleans: cannot fail")
+			st.assume(eq(ifTyp(er.S), "0"))
+		}
 		content := e.asn1Of(st, sv)
 		b := e.freshBytes(st, resTypeAt(resT, 0), content, "asn1")
 		return tupleOf(resT, b, er)
@@ -265,4 +270,22 @@ func (e *Engine) netBuiltin(env *Env, name string, ex *SExpr) (Val, bool) {
 		return Val{S: n, T: tString}, true
 	}
 	return Val{}, false
+}
+
+// asn1Total: encoding/asn1.Marshal has no failing case for values of this type.
+func asn1Total(t types.Type) bool {
+	switch u := t.Underlying().(type) {
+	case *types.Basic:
+		return u.Info()&(types.IsInteger|types.IsBoolean) != 0
+	case *types.Slice:
+		return asn1Total(u.Elem())
+	case *types.Struct:
+		for i := 0; i < u.NumFields(); i++ {
+			if !asn1Total(u.Field(i).Type()) {
+				return false
+			}
+		}
+		return true
+	}
+	return false
 }
